@@ -201,6 +201,8 @@ def _run_one(runner, p, k, op, spec):
         ia, _ = p.do("append W " + " ".join(hexb(b) for b in op[1]))
         runner.expect(k, op, ia, exp, "result")
     elif kind == "clear":
+        if op[1] >= spec.length:
+            return          # outside the property's quantifier (start < length)
         for i in range(op[1], min(op[2], spec.length)):
             spec.cleared.add(i)
         ia, _ = p.do("clear W %d %d" % (op[1], op[2]))
